@@ -1022,6 +1022,7 @@ func litSubst(pattern string, bind map[string]string) string {
 // rule can demand the same local in several literals.
 func litUnify(actual, pattern string, bind map[string]string) bool {
 	c1, c2 := canonLit(pattern)
+	actual, _ = canonLit(actual) // (a no-op for atoms produced by NormAtom)
 	if c1 == actual || litUnify1(actual, c1, bind) {
 		return true
 	}
